@@ -915,7 +915,8 @@ class Fold(Task):
                 continue
             if isinstance(v, Raised):
                 e = v.exc
-                ok = e.cls is N.Impossible
+                # an abstract exception re-raised by `except Impossible: raise` is known to be an Impossible
+                ok = e.cls is N.Impossible or (e.cls is None and issubclass(e.within, N.Impossible))
                 nm = f"{self.base}.raises_only_Impossible#p{self.shape_no * 1000 + i}"
                 if ok:
                     out.append(Res(nm, "discharged", "pyvc-path", time.time() - t1, "", self.kind))
